@@ -118,7 +118,7 @@ def fmtEnc : EncEv → String
   | .resize n => s!"S{n}"
 
 def peek (c : Conn) : String :=
-  s!"st={c.streams.length},{c.closedStreams.length},{c.cstate.name},{c.highestIn},{c.highestOut},{c.outWin},{c.inWM.current_window_size},{c.inWM.max_window_size},{c.maxOutFrame},{c.maxInFrame},{c.fb.data.length},{c.fb.headersBuffer.length}"
+  s!"st={c.streams.length},{c.closedStreams.length},{c.cstate.name},{c.highestIn},{c.highestOut},{c.outWin},{c.inWM.current_window_size},{c.inWM.max_window_size},{c.maxOutFrame},{c.maxInFrame},{c.fb.data.length},{c.fb.headersBuffer.length},{c.inWM.bytes_processed}"
 
 def peekStreams (c : Conn) : String :=
   if c.streams.isEmpty then "." else ";".intercalate (c.streams.map fun (sid, st) =>
@@ -126,7 +126,7 @@ def peekStreams (c : Conn) : String :=
     let b := fun (x : Bool) => if x then "1" else "0"
     let cl := match sm.client with | some true => "T" | some false => "F" | none => "-"
     let cb := match sm.closedBy with | some x => x.name | none => "-"
-    s!"{sid}:{sm.state.name}:{cb}:{st.outWin}:{st.inWM.current_window_size}:{st.inWM.max_window_size}:{b sm.headersSent}{b sm.trailersSent}{b sm.headersReceived}{b sm.trailersReceived}{cl}:{optStr st.expectedCL}:{st.actualCL}")
+    s!"{sid}:{sm.state.name}:{cb}:{st.outWin}:{st.inWM.current_window_size}:{st.inWM.max_window_size}:{b sm.headersSent}{b sm.trailersSent}{b sm.headersReceived}{b sm.trailersReceived}{cl}:{optStr st.expectedCL}:{st.actualCL}:{st.inWM.bytes_processed}")
 
 def fmtObs (before after : Conn) (consumesOut : Bool) (o : Obs) : String :=
   let evs := o.events
